@@ -104,6 +104,39 @@ def mkVal (k : Kinds) (c i : Nat) : Val := if k.kindOf c == 'z' then ⟨c, 0⟩ 
 def mkVals (k : Kinds) (shape : List Nat) (ids : List Nat) : List Val :=
   List.zipWith (mkVal k) shape ids
 
+/-- `a:c:v,d:c:0,…`: the steps of a `chain` op (several entry operations through one handle). -/
+def parseChain (s : String) : Option (List (Char × Nat × Nat)) :=
+  (s.splitOn ",").mapM (fun t =>
+    match t.splitOn ":" with
+    | [kS, cS, vS] =>
+      match kS.toList, cS.toNat?, vS.toNat? with
+      | [ch], some c, some v => some (ch, c, v)
+      | _, _, _ => none
+    | _ => none)
+
+/-- The model has no handle: a chain is the sequence of its steps. -/
+def chainRun (k : Kinds) (id : Ident) :
+    World → List (Char × Nat × Nat) → List Val → List String → Out (World × List Val × List String)
+  | w, [], drops, reads => .ok (w, drops, reads)
+  | w, (ch, c, v) :: rest, drops, reads =>
+    if ch == 'a' then
+      match w.entryAdd id c (mkVal k c v) with
+      | .ok (w', d) => chainRun k id w' rest (drops ++ d.getD []) reads
+      | .ub e => .ub e
+    else if ch == 'd' then
+      match w.entryRemove id c with
+      | .ok (w', d) => chainRun k id w' rest (drops ++ d.getD []) reads
+      | .ub e => .ub e
+    else if ch == 'w' then
+      match w.write id c (mkVal k c v) with
+      | .ok (w', d) => chainRun k id w' rest (drops ++ d.getD []) reads
+      | .ub e => .ub e
+    else
+      match w.entryQuery id [.oref c] .none with
+      | .ok (some [.val x]) => chainRun k id w rest drops (reads ++ [valStr k x])
+      | .ok _ => chainRun k id w rest drops (reads ++ ["n"])
+      | .ub e => .ub e
+
 /-- Run one op on the model.  Returns the new state and the result text (without the `r `). -/
 def runOp (st : St) (wi : Nat) (name : String) (args : List String) : St × String :=
   let k := st.kinds
@@ -185,6 +218,18 @@ def runOp (st : St) (wi : Nat) (name : String) (args : List String) : St × Stri
         | .ok (_, none) => (st, "none")
         | .ub e => (st, ubStr e)
     | _, _, _ => bad
+  | "chain", [idS, stepsS] =>
+    match parseIdent idS, parseChain stepsS with
+    | some id, some steps =>
+      if steps.any (fun s => s.2.1 ≥ st.n) then bad else
+      withW fun w =>
+        if !(w.hasEntry id) then (st, "none") else
+        match chainRun k id w steps [] [] with
+        | .ok (w', drops, reads) =>
+          (st.setW wi (some w'),
+           s!"ok drops={dropsStr k drops} reads={if reads.isEmpty then "-" else String.intercalate "," reads}")
+        | .ub e => (st, ubStr e)
+    | _, _ => bad
   | "reserve", [shapeS, _n] =>
     match parseNats shapeS with
     | some shape =>
@@ -453,6 +498,29 @@ def specOnResult (st : St) (toks : List String) : St × List String :=
           let (st, o) := if has then checkDrops st (e.vals.filter (fun x => x.ty == c)) else (st, [])
           (st.setS wi (some (s.write id (mkVal k c v))), o)
       | _, _, _, _ => (st, [])
+    | "chain", [idS, stepsS] =>
+      match st.getS wi, parseIdent idS, parseChain stepsS with
+      | some s, some id, some steps =>
+        match s.find id with
+        | none => if status == "none" then (st, []) else fail st "spec" s!"chain on dead identifier {id.toStr} returned {status}"
+        | some _ =>
+          if status == "none" then fail st "spec" s!"entry() is None for live identifier {id.toStr}" else
+          -- the reference map, step by step: expected drops and expected reads
+          let r := steps.foldl (fun (acc : Spec × List Val × List String) (st3 : Char × Nat × Nat) =>
+            let (sp, dr, rd) := acc
+            let (ch, c, v) := st3
+            let cur := match sp.find id with | some e => e.vals | none => []
+            let old := cur.filter (fun x => x.ty == c)
+            if ch == 'a' then (sp.add id (mkVal k c v), dr ++ old, rd)
+            else if ch == 'd' then (sp.del id c, dr ++ old, rd)
+            else if ch == 'w' then (sp.write id (mkVal k c v), dr ++ old, rd)
+            else (sp, dr, rd ++ [match old with | x :: _ => valStr k x | [] => "n"])) (s, [], [])
+          let (st, o1) := checkDrops st r.2.1
+          let wantReads := if r.2.2.isEmpty then "-" else String.intercalate "," r.2.2
+          let (st, o2) := if fieldOf toks "reads" == some wantReads then (st, [])
+            else fail st "spec" s!"chain reads: spec={wantReads} real={fieldOf toks "reads"}"
+          (st.setS wi (some r.1), o1 ++ o2)
+      | _, _, _ => (st, [])
     | "probe", [idS] =>
       match st.getS wi, parseIdent idS with
       | some s, some id =>
